@@ -593,6 +593,21 @@ Inv_C09_StillReports ==
               => CondTrue(PE.status.cr, "Paused")
        /\ IsPhaseActor(PE.actor) => CondTrue(PE.status.cr, "Paused")
 
+\* pause reaches delegated phases: after an error-free pass of an ObjectSet, every phase object the pass has read and
+\* that the ObjectSet controls carries spec.paused = the ObjectSet's own pause state (so the phase controller is hands-off
+\* exactly while the ObjectSet is paused).  Reached(j): the phase loop got to phase j (all earlier phases passed).
+PhasePauseOK(pr, j) ==
+    LET k == pr.snap.cr.phases[j].phaseKey IN
+    (k \in Keys /\ pr.reads[k].valid /\ pr.reads[k].o.exists /\ store[k].exists /\ store[k].uid = pr.reads[k].o.uid /\ IsCtrl(pr, store[k]))
+    => store[k].cr.paused = SnapPaused(pr)
+PassEndedOK == PassEnded /\ IsSetActor(W.actor) /\ W.res = "ok" /\ PE.hasSnap /\ Rollout(PE) /\ ~PE.apiErr
+ReachedPhase(pr, j) == \A i \in 1..(j - 1) : (\A k \in PhaseWriteKeys(pr, i) : pr.obs[k].valid /\ pr.obs[k].present /\ pr.obs[k].passes)
+Inv_C09_PhasePauseFollows ==
+    PassEndedOK => \A j \in 1..NPhases(PE) : (IsDelegated(PE, j) /\ ReachedPhase(PE, j)) => PhasePauseOK(PE, j)
+\* ... and the phases behind a failing phase (the loop stops at the first failing phase; known finding)
+Inv_C09_PhasePauseBehindFailure ==
+    PassEndedOK => \A j \in 1..NPhases(PE) : (IsDelegated(PE, j) /\ ~ReachedPhase(PE, j)) => PhasePauseOK(PE, j)
+
 \* pausing an ObjectDeployment: no revision is created, archived or pruned while paused
 Inv_C09_DeploymentPausedNoRevisionChange ==
     (lw.valid /\ IsDepActor(W.actor) /\ IsWrite(W.ev) /\ ~W.dry /\ PR.hasSnap /\ PR.snap.cr.paused
